@@ -229,6 +229,7 @@ def check(case, ctx):
                                  case={'t': case['t'], 'depth': case['depth'], 'model': name, 'history': hist + [list(map(str, op))]})
                         return
                     ctx.transitions += 1
+                    ctx.validated += 1     # reference content / reference key order compared for this transition
                     if _snapshot(g) != before:
                         ctx.fail(f'operation {kind}({arg}) modified its argument graph', expected=repr(before)[:300], observed=repr(_snapshot(g))[:300],
                                  case={'t': case['t'], 'depth': case['depth'], 'model': name, 'history': hist + [list(map(str, op))]})
